@@ -83,6 +83,69 @@ pub fn real_decrypt(file: &[u8], r_priv: &[u8], r_pub: &[u8]) -> (String, Vec<u8
     }
 }
 
+/// C01 over MANY key pairs: a fault that depends on the value of a key (one key in a hundred) is invisible to a fixed key set.
+/// n random sender / recipient / ephemeral keys, a short plaintext each: the file must open to the plaintext and the sender.
+pub fn keysweep(seed: u64, scn: &Value) -> Value {
+    let n = ju64_or(scn, "n", 1500);
+    let mut rng = Rng::derive(seed, &format!("keysweep{}", ju64_or(scn, "k", 0)));
+    let (mut failed, mut panics) = (0u64, 0u64);
+    let mut first_bad = String::new();
+    for i in 0..n {
+        let (s, r, e, pk) = (rng.bytes32(), rng.bytes32(), rng.bytes32(), rng.bytes32());
+        let plain = pbytes(i, 0, 1 + (i % 40));
+        let pubs = catch_unwind(AssertUnwindSafe(|| {
+            (kestrel_crypto::x25519_derive_public(&s), kestrel_crypto::x25519_derive_public(&r), kestrel_crypto::x25519_derive_public(&e))
+        }));
+        let (sp, rp, ep) = match pubs {
+            Ok((Ok(a), Ok(b), Ok(c))) => (a, b, c),
+            _ => {
+                failed += 1;
+                if first_bad.is_empty() {
+                    first_bad = format!("derive:{}", crate::util::hex(&s));
+                }
+                continue;
+            }
+        };
+        // randomness supplied on even rounds, left to the library on odd ones
+        let file = if i % 2 == 0 {
+            real_encrypt(&plain, &s, &sp, &rp, &e, &ep, &pk)
+        } else {
+            match catch_unwind(AssertUnwindSafe(|| {
+                let mut out = Vec::new();
+                let mut p = &plain[..];
+                key_encrypt(&mut p, &mut out, &PrivateKey::try_from(&s[..]).unwrap(), &PublicKey::try_from(&sp[..]).unwrap(),
+                            &PublicKey::try_from(&rp[..]).unwrap(), None, None, None, AsymFileFormat::V1).map(|_| out)
+            })) {
+                Ok(Ok(v)) => Ok(v),
+                Ok(Err(_)) => Err("err"),
+                Err(_) => Err("panic"),
+            }
+        };
+        let ok = match file {
+            Ok(f) => {
+                let (res, sender, out) = real_decrypt(&f, &r, &rp);
+                if res == "panic" {
+                    panics += 1;
+                }
+                res == "ok" && sender == sp && out == plain
+            }
+            Err(x) => {
+                if x == "panic" {
+                    panics += 1;
+                }
+                false
+            }
+        };
+        if !ok {
+            failed += 1;
+            if first_bad.is_empty() {
+                first_bad = format!("s={} r={}", crate::util::hex(&s), crate::util::hex(&r));
+            }
+        }
+    }
+    json!({"ev":"ksweep","id":scn.get("id").cloned().unwrap_or(json!("")),"n":n,"failed":failed,"panics":panics,"first_bad":first_bad})
+}
+
 pub fn run_hs(t: &Templates, seed: u64, scn: &Value) -> Value {
     let sc = scn.get("sc").expect("sc");
     let lo = ju64_or(scn, "lo", 0) as usize;
@@ -246,6 +309,7 @@ pub fn run_file(t: &Templates, seed: u64, inp: &str, outp: &str) {
             "golden" => crate::golden::golden(t, &scn),
             "mkgolden" => crate::golden::mkgolden(&scn),
             "hh" => crate::golden::hh(t, seed, &scn),
+            "keysweep" => keysweep(seed, &scn),
             "nonce" => crate::golden::nonce(t, seed, &scn),
             x => panic!("op {}", x),
         };
